@@ -169,7 +169,7 @@ static std::string snap_str(const Snap& s) {
 
 // ------------------------------------------------------------------------------------------------ calls
 enum Kind { K_SETOPT, K_SETEXTRA, K_SETCMT, K_RESETSTATE, K_RESETCMT, K_INST, K_NEWLABEL, K_NAMEDLABEL, K_BIND, K_ALIGN, K_EMBED,
-            K_EMBEDLABEL, K_SECTION, K_NEWSECTION, K_REL, K_EMBEDLABELDELTA, K_MEM };
+            K_EMBEDLABEL, K_SECTION, K_NEWSECTION, K_REL, K_EMBEDLABELDELTA, K_MEM, K_VSIB };
 struct Call {
   Kind kind; uint32_t a = 0, b = 0; uint64_t c = 0; bool flag = false;
   Operand ops[6]; std::string name; const char* what = ""; uint32_t nform = 6;
@@ -217,16 +217,19 @@ static Res exec(Ctx& c, const Call& k) {
             case 5: id = Inst::kIdB; o[0].copy_from(l); break;
             case 6: id = Inst::kIdBl; o[0].copy_from(l); break;
             case 7: id = BaseInst::compose_arm_inst_id(Inst::kIdB, arm::CondCode(2 + (k.c % 14))); o[0].copy_from(l); break;
-            case 8: id = Inst::kIdCbz; o[0].copy_from(Gp::make_r64(uint32_t(k.c % 31))); o[1].copy_from(l); break;
-            case 9: id = Inst::kIdTbz; o[0].copy_from(Gp::make_r64(uint32_t(k.c % 31))); o[1] = mk_imm(int64_t(k.c % 64)); o[2].copy_from(l); break;
-            case 10: id = Inst::kIdAdr; o[0].copy_from(Gp::make_r64(uint32_t(k.c % 31))); o[1].copy_from(l); break;
-            default: { id = Inst::kIdLdr; o[0].copy_from(Gp::make_r64(uint32_t(k.c % 31))); Mem m = a64::ptr(l); o[1].copy_from(m); break; }
+            case 8: id = Inst::kIdCbz; o[0].copy_from(Gp::make_r64(k.nform)); o[1].copy_from(l); break;
+            case 9: id = Inst::kIdTbz; o[0].copy_from(Gp::make_r64(k.nform)); o[1] = mk_imm(int64_t(k.c % 64)); o[2].copy_from(l); break;
+            case 10: id = Inst::kIdAdr; o[0].copy_from(Gp::make_r64(k.nform)); o[1].copy_from(l); break;
+            default: { id = Inst::kIdLdr; o[0].copy_from(Gp::make_r64(k.nform)); Mem m = a64::ptr(l); o[1].copy_from(m); break; }
           }
         }
         e = c.em->_emit(id, o[0], o[1], o[2], &o[3]); break; }
       case K_MEM: {   // add r32, [mem]: the verdict is computed by the model (validator + memory-operand encoder path)
         Operand none; Operand ext[3];
         e = c.em->_emit(x86::Inst::kIdAdd, k.ops[0], k.ops[1], none, ext); break; }
+      case K_VSIB: {   // vgatherdps v, [vsib], v: verdict computed by the model (validator + VEX/VSIB encoder path)
+        Operand ext[3];
+        e = c.em->_emit(x86::Inst::kIdVgatherdps, k.ops[0], k.ops[1], k.ops[2], ext); break; }
       case K_NEWSECTION: { Section* s; e = c.code.new_section(Out(s), k.name.data(), k.name.size(), SectionFlags::kNone, k.a, 0); break; }
     }
   } catch (const Thrown& t) { r.thrown = 1; e = (k.kind == K_NEWLABEL || k.kind == K_NAMEDLABEL) ? Error(0xFFFF) : t.err; }
@@ -614,6 +617,7 @@ static std::string bad_reg_ids(Ctx& c, const Call& k, const Snap& pre) {
       const BaseMem& m = o.as<BaseMem>();
       if (m.has_base_reg() && uint32_t(m.base_type()) > 1 && uint32_t(m.base_type()) != uint32_t(RegType::kPC) && bad(m.base_id())) { snprintf(b, sizeof(b), " op%d.base", i); s += b; }
       if (m.has_index_reg() && bad(m.index_id())) { snprintf(b, sizeof(b), " op%d.index", i); s += b; }
+      if (!a64 && o.as<x86::Mem>().segment_id() > 6) { snprintf(b, sizeof(b), " op%d.segment", i); s += b; }   // 3-bit field, segment registers are 1..6
     }
   }
   if (!a64 && pre.esig != 0) {
@@ -743,8 +747,20 @@ static void run_session(uint64_t seed, uint64_t session, bool verbose) {
       if (arch == AR_A64) j.a = 5 + g.below(7); else { j.a = g.below(5); if (j.a == 4 && arch == AR_X86) j.a = 3; }
       j.b = g.chance(75) && nlab ? g.below(nlab) : pick_label(g, c, false);
       j.c = g.below(8) | (uint64_t(g.below(64)) << 3);
-      if (arch == AR_A64) j.c = g.u32();
+      if (arch == AR_A64) { j.c = g.u32(); static const uint32_t wr[] = {31, 32, 40, 62, 63, 64, 200, 255, 300}; j.nform = g.chance(75) ? g.below(31) : g.pick(wr); }   // nform = register id of cbz/tbz/adr/ldr
       pending.push_back(j);
+    }
+    if (pending.empty() && c.as && arch != AR_A64 && g.chance(3)) {   // boundary bind: short jmp to a fresh label, 126..129 bytes, bind
+      Call nl; nl.kind = K_NEWLABEL; nl.what = "new_label"; pending.push_back(nl);
+      Call z; z.kind = K_RESETSTATE; z.what = "reset_state"; pending.push_back(z);
+      Call o; o.kind = K_SETOPT; o.what = "set_inst_options"; o.a = 0x10u; pending.push_back(o);
+      Call j; j.kind = K_REL; j.what = "rel"; j.a = g.below(2); j.b = nlab; j.c = 0; pending.push_back(j);
+      Call e; e.kind = K_EMBED; e.what = "embed"; e.a = 125 + g.below(5); pending.push_back(e);
+      Call b; b.kind = K_BIND; b.what = "bind"; b.a = nlab; pending.push_back(b);
+      if (nlab && g.chance(60)) {   // delta of two labels that may be > 127 bytes apart, in a 1- or 2-byte field
+        Call d; d.kind = K_EMBEDLABELDELTA; d.what = "embed_label_delta"; bool sw = g.chance(50);
+        d.a = sw ? nlab : g.below(nlab); d.b = sw ? g.below(nlab) : nlab; d.c = g.chance(70) ? 1 : 2; pending.push_back(d);
+      }
     }
     if (pending.empty() && c.as && arch != AR_A64 && g.chance(9)) {   // memory-operand path instruction
       Call z; z.kind = K_RESETSTATE; z.what = "reset_state"; pending.push_back(z);
@@ -761,7 +777,6 @@ static void run_session(uint64_t seed, uint64_t session, bool verbose) {
       auto pick_id = [&]() -> uint32_t { static const uint32_t w[] = {4, 5, 12, 13, 8, 15, 16, 31, 32, 255, 256, 0xFFFFFFFFu};
         return g.chance(85) ? g.below(x64 ? 16 : 8) : g.pick(w); };
       uint32_t bt = pick_type(true), it = pick_type(false);
-      if (bt == 0 && it == 0 && x64) bt = nat;             // base-less addresses in 64-bit mode are not modelled
       uint32_t dst = g.chance(85) ? g.below(x64 ? 16 : 8) : pick_id();
       x86::Mem m;
       m.set_base_type(RegType(bt)); m.set_base_id(pick_id());
@@ -773,9 +788,37 @@ static void run_session(uint64_t seed, uint64_t session, bool verbose) {
       int64_t off;
       switch (g.below(6)) { case 0: off = 0; break; case 1: off = int64_t(g.below(256)) - 128; break; case 2: off = int64_t(g.below(4)) - 2 + (g.chance(50) ? 127 : -128); break;
                             case 3: off = int32_t(g.u32()); break; case 4: off = int64_t(g.u32() & 0xFFFF) - 0x8000; break; default: off = int64_t(g.next()) >> g.below(40); break; }
+      if (bt == 0 && it == 0 && x64 && g.chance(50)) { static const int64_t av[] = {0x1000, 0x10040, 0x7FFFFFFF, 0x80000000ll, 0xFFFFFFFFll, 0x100000000ll, -1, -4096, 0x12345678ll, 0x8000FFFFll};
+        off = g.pick(av) + int64_t(g.below(64)); }
       if (bt == 0) m.set_offset(off); else m.set_offset_lo32(int32_t(off));
       mq.ops[0] = mk_reg(uint32_t(RegType::kGp32), dst); mq.ops[1].copy_from(m); mq.a = dst;
       pending.push_back(mq);
+    }
+    if (pending.empty() && c.as && arch != AR_A64 && g.chance(5)) {   // VEX + VSIB path instruction (VEX forms only: ids < 16, no 512-bit)
+      Call z; z.kind = K_RESETSTATE; z.what = "reset_state"; pending.push_back(z);
+      Call vq; vq.kind = K_VSIB; vq.what = "vsib";
+      bool x64 = arch == AR_X64;
+      uint32_t r = g.below(100);
+      uint32_t vt = r < 55 ? uint32_t(RegType::kVec128) : r < 90 ? uint32_t(RegType::kVec256) : (g.chance(50) ? uint32_t(RegType::kGp32) : uint32_t(RegType::kX86_Mm));
+      r = g.below(100);
+      uint32_t it = r < 50 ? uint32_t(RegType::kVec128) : r < 75 ? uint32_t(RegType::kVec256) : r < 85 ? 0u : r < 95 ? uint32_t(x64 ? RegType::kGp64 : RegType::kGp32) : g.below(13);
+      if (g.chance(60) && vt >= uint32_t(RegType::kVec128)) it = vt;             // matching forms are the accepted ones
+      r = g.below(100);
+      uint32_t bt = r < 70 ? uint32_t(x64 ? RegType::kGp64 : RegType::kGp32) : r < 85 ? 0u : r < 92 ? uint32_t(RegType::kGp32) : (2 + g.below(11));
+      uint32_t nid = x64 ? 16 : 8;
+      x86::Mem m;
+      m.set_base_type(RegType(bt)); m.set_base_id(g.chance(90) ? g.below(nid) : 8 + g.below(24));
+      m.set_index_type(RegType(it)); m.set_index_id(g.chance(85) ? g.below(nid) : g.below(16));
+      m.set_shift(g.below(4));
+      { OperandSignature sg = m.signature(); sg.set_field<x86::Mem::kSignatureMemSegmentMask>(g.chance(80) ? 0 : g.below(8)); m.set_signature(sg); }
+      { static const uint32_t sz[] = {0, 0, 0, 4, 4, 8, 16}; m.set_size(g.pick(sz)); }
+      int64_t off;
+      switch (g.below(4)) { case 0: off = 0; break; case 1: off = int64_t(g.below(256)) - 128; break; case 2: off = int32_t(g.u32()); break; default: off = int64_t(g.below(4)) - 2 + (g.chance(50) ? 127 : -128); break; }
+      if (bt == 0) m.set_offset(int64_t(int32_t(off))); else m.set_offset_lo32(int32_t(off));
+      vq.ops[0] = mk_reg(vt, g.chance(85) ? g.below(nid) : g.below(16));
+      vq.ops[1].copy_from(m);
+      vq.ops[2] = mk_reg(vt, g.chance(85) ? g.below(nid) : g.below(16));
+      pending.push_back(vq);
     }
     if (!pending.empty()) {
       k = pending.front(); pending.erase(pending.begin());
@@ -787,11 +830,22 @@ static void run_session(uint64_t seed, uint64_t session, bool verbose) {
         snprintf(cmd, sizeof(cmd), "K %u %u %u %u %u %u %u %u %u %u %lld", unsigned(x86::Inst::kIdAdd), k.a, unsigned(m.base_type()), m.base_id(), unsigned(m.index_type()), m.index_id(),
                  m.shift(), unsigned(m.segment_id()), unsigned(m.addr_type()), unsigned(m.size()), off);
       }
+      else if (k.kind == K_VSIB) {
+        const x86::Mem& m = k.ops[1].as<x86::Mem>();
+        long long off = m.base_type() == RegType::kNone ? (long long)m.offset() : (long long)m.offset_lo32();
+        snprintf(cmd, sizeof(cmd), "V %u %u %u %u %u %u %u %u %u %u %u %u %u %lld", unsigned(x86::Inst::kIdVgatherdps), unsigned(k.ops[0].as<Reg>().reg_type()), k.ops[0].id(), k.ops[2].id(),
+                 k.ops[0].x86_rm_size() | k.ops[2].x86_rm_size(), unsigned(m.base_type()), m.base_id(), unsigned(m.index_type()), m.index_id(), m.shift(), unsigned(m.segment_id()),
+                 unsigned(m.addr_type()), unsigned(m.size()), off);
+      }
+      else if (k.kind == K_NEWLABEL) snprintf(cmd, sizeof(cmd), "L");
+      else if (k.kind == K_EMBED) snprintf(cmd, sizeof(cmd), "E %u", k.a);
+      else if (k.kind == K_BIND) { /* cmd is printed after the call (B id pf) */ }
+      else if (k.kind == K_EMBEDLABELDELTA) snprintf(cmd, sizeof(cmd), "ELD %u %u %u", k.a, k.b, unsigned(k.c));
       else if (k.kind == K_NEWSECTION) snprintf(cmd, sizeof(cmd), "NS %u %u", k.a, unsigned(k.name.size()));
       else if (k.kind == K_SECTION) snprintf(cmd, sizeof(cmd), "S %u %d", k.a, int(k.flag));
       else {
         // labels bound in another section are referenced too (holder-level cross-section fixups, DESIGN 7.14 repaired)
-        snprintf(cmd, sizeof(cmd), "J %u %u", k.a, k.b);
+        snprintf(cmd, sizeof(cmd), "J %u %u %d %u", k.a, k.b, (k.a == 3 || k.a == 4) ? int(k.c >> 3) : 0, k.a >= 8 ? k.nform : 0u);
       }
     }
     else if (w < 8) { k.kind = K_SETOPT; static const uint32_t opts[] = { 0x1u, 0x2u, 0x4u, 0x8u, 0x10u, 0x20u, 0x40u, 0x80u, 0x100u, 0x200u, 0x400u, 0x1000u, 0x2000u, 0x4000u, 0x8000u, 0x10000u, 0x20000u, 0x40000u,
@@ -908,7 +962,12 @@ static void run_session(uint64_t seed, uint64_t session, bool verbose) {
           }
         }
         uint64_t drel = post.rel - pre.rel, dadr = post.adr - pre.adr, dsec = post.sizes.size() - pre.sizes.size();
-        snprintf(cmd, sizeof(cmd), "I ok %" PRIu64 " %ld %d %" PRIu64 " %" PRIu64 " %" PRIu64, nb, fixl, int(fixl >= 0 && drel > 0), drel, dadr, dsec);
+        // position / addend / format of the fixup the encoder created (the newest one chained to the label)
+        long long foff = 0, frel = 0; unsigned fbits = 0, fdis = 0;
+        if (fixl >= 0 && size_t(fixl) < c.code.label_count() && !c.code.is_label_bound(uint32_t(fixl))) {
+          if (Fixup* fx = c.code.label_entry_of(uint32_t(fixl)).unresolved_fixups()) { foff = (long long)fx->offset; frel = (long long)fx->rel; fbits = fx->format.imm_bit_count(); fdis = fx->format.imm_discard_lsb(); }
+        }
+        snprintf(cmd, sizeof(cmd), "I ok %" PRIu64 " %ld %d %" PRIu64 " %" PRIu64 " %" PRIu64 " %lld %lld %u %u", nb, fixl, int(fixl >= 0 && drel > 0), drel, dadr, dsec, foff, frel, fbits, fdis);
         std::string bad = bad_reg_ids(c, k, pre);
         if (!bad.empty() && c.as) {
           uint32_t enc = 0;
@@ -920,7 +979,10 @@ static void run_session(uint64_t seed, uint64_t session, bool verbose) {
       else snprintf(cmd, sizeof(cmd), "I err %u", r.ret);
       char b[64]; snprintf(b, sizeof(b), " %s id=%u", k.what, k.a); info += b; info += ops_str(k);
     }
-    else if (k.kind == K_MEM) { info += " mem"; info += ops_str(k); }
+    else if (k.kind == K_MEM || k.kind == K_VSIB) {
+      if (r.ret == 0 && !r.thrown) { std::string bad = bad_reg_ids(c, k, pre); if (!bad.empty()) { info += " badreg enc=0"; info += bad; info += " inst-modelled"; } }
+      info += k.kind == K_MEM ? " mem" : " vsib"; info += ops_str(k);
+    }
     else if (k.kind == K_REL) { char b[96]; snprintf(b, sizeof(b), " rel kind=%u label=%u c=%" PRIu64, k.a, k.b, k.c); info += b;
       if (r.ret == 0 && !r.thrown && k.b < pre.lbound.size() && pre.lbound[k.b] && pre.lsec[k.b] != pre.cur && post.fix > pre.fix) info += " xsec-fixup"; }
     else if (k.kind == K_BIND) {
@@ -942,21 +1004,30 @@ static void run_session(uint64_t seed, uint64_t session, bool verbose) {
     const Call& k = history[i]; const Res& r = results[i];
     bool failed = r.ret != 0 || r.thrown;
     if (!failed) { Res r2 = exec(fr, k); if (r2.ret != 0 || r2.thrown) replay_fail++; }
-    else if (k.kind == K_INST || k.kind == K_REL || k.kind == K_MEM) { Call z; z.kind = K_RESETSTATE; exec(fr, z); }
+    else if (k.kind == K_INST || k.kind == K_REL || k.kind == K_MEM || k.kind == K_VSIB) { Call z; z.kind = K_RESETSTATE; exec(fr, z); }
     else if (k.kind == K_BIND && c.as) {
       if (r.ret == uint32_t(Error::kInvalidDisplacement)) exec(fr, k); else { Call z; z.kind = K_RESETCMT; exec(fr, z); }
     }
   }
   Snap s1, s2; take(c, s1); take(fr, s2);
   std::string a1 = snap_str(s1), a2 = snap_str(s2);
-  int fin_same = 1; uint32_t e1 = 0, e2 = 0; std::string b1, b2; int fc1 = 0, fc2 = 0;
+  int fin_same = 1; uint32_t e1 = 0, e2 = 0; std::string b1, b2; int fc1 = 0, fc2 = 0; int fin2 = -1;
   if (c.bld) {
     auto fin = [](Ctx& x) -> uint32_t { x.end_func(); x.handler.calls = 0; try { return uint32_t(x.em->finalize()); } catch (const Thrown& t) { return 0x10000u | uint32_t(t.err); } };
     e1 = fin(c); e2 = fin(fr); fc1 = c.handler.calls; fc2 = fr.handler.calls;
     Snap t1, t2; take(c, t1); take(fr, t2); b1 = snap_str(t1); b2 = snap_str(t2);
     fin_same = (e1 == e2) && (b1 == b2);
+    // a failed (possibly thrown-out-of) finalize() must leave both emitters usable and equivalent: finalize once more
+    if (e1 != 0 && fin_same && !c.func_mode) {   // (not after a failed register allocation: re-running the RA on a half-allocated function is not defined)
+      int k1 = c.handler.calls, k2 = fr.handler.calls;
+      auto fin_again = [](Ctx& x) -> uint32_t { try { return uint32_t(x.em->finalize()); } catch (const Thrown& t) { return 0x10000u | uint32_t(t.err); } };
+      uint32_t g1 = fin_again(c), g2 = fin_again(fr);
+      Snap u1, u2; take(c, u1); take(fr, u2);
+      if (g1 != g2 || snap_str(u1) != snap_str(u2) || (c.handler.calls - k1) != (fr.handler.calls - k2)) { fin_same = 0; b1 = "second finalize: " + snap_str(u1); b2 = "second finalize: " + snap_str(u2); }
+      fin2 = int(g1);
+    }
   }
-  printf("F %" PRIu64 " same=%d replay_fail=%d fin_same=%d fin=%u/%u fcalls=%d/%d\n", session, int(a1 == a2), replay_fail, fin_same, e1, e2, fc1, fc2);
+  printf("F %" PRIu64 " same=%d replay_fail=%d fin_same=%d fin=%u/%u fcalls=%d/%d fin2=%d\n", session, int(a1 == a2), replay_fail, fin_same, e1, e2, fc1, fc2, fin2);
   if (a1 != a2) printf("FD recycled: %s\nFD fresh   : %s\n", a1.c_str(), a2.c_str());
   if (!fin_same) printf("FD fin recycled: %s\nFD fin fresh   : %s\n", b1.c_str(), b2.c_str());
   delete fp; delete cp;
@@ -1006,18 +1077,33 @@ int main(int argc, char** argv) {
     printf("PROBE %s emit=%u finalize=%u\nEND\n", argv[1], unsigned(e1), unsigned(e2));
     return 0;
   }
+  if (argc == 2 && !strcmp(argv[1], "probe-constpool")) {
+    // embed_const_pool(label, pool) with a label that is ALREADY bound: the call must fail without padding the section /
+    // appending an align node first
+    ArenaTmp<512> arena(512); ConstPool pool(arena); uint64_t v = 0x1122334455667788ull; size_t off; pool.add(&v, 8, Out(off));
+    CodeHolder code; code.init(Environment(Arch::kX64)); x86::Assembler a(&code);
+    Label l = a.new_label(); a.bind(l); a.embed(kData, 3);
+    size_t before = a.offset(); Error e1 = a.embed_const_pool(l, pool); size_t after = a.offset();
+    CodeHolder code2; code2.init(Environment(Arch::kX64)); x86::Builder b(&code2);
+    Label l2 = b.new_label(); b.bind(l2); b.embed(kData, 3);
+    size_t n0 = 0; for (BaseNode* n = b.first_node(); n; n = n->next()) n0++;
+    Error e2 = b.embed_const_pool(l2, pool);
+    size_t n1 = 0; for (BaseNode* n = b.first_node(); n; n = n->next()) n1++;
+    printf("PROBE constpool asm_err=%u asm_size=%zu/%zu builder_err=%u builder_nodes=%zu/%zu\nEND\n", unsigned(e1), before, after, unsigned(e2), n0, n1);
+    return 0;
+  }
   if (argc == 2 && !strcmp(argv[1], "sweep")) { g_scratch = new Scratch(); sweep_a64(); printf("END\n"); return 0; }
   if (argc < 4) { fprintf(stderr, "usage: c14_harness seed first n [v] | sweep\n"); return 2; }
   uint64_t seed = strtoull(argv[1], nullptr, 10), first = strtoull(argv[2], nullptr, 10), n = strtoull(argv[3], nullptr, 10);
   bool verbose = argc > 4;
   for (size_t i = 0; i < sizeof(kData); i++) kData[i] = uint8_t(i * 37 + 1);
   // numeric values of the constants the model mirrors (compared with the model's `model_constants`)
-  printf("T %u %u %u %u %u %u %u %u %u %u %u %u %u %u %u %u %u %u %u %u %u %u\n", unsigned(Error::kInvalidArgument), unsigned(Error::kInvalidState), unsigned(Error::kInvalidLabel),
+  printf("T %u %u %u %u %u %u %u %u %u %u %u %u %u %u %u %u %u %u %u %u %u %u %u %u\n", unsigned(Error::kInvalidArgument), unsigned(Error::kInvalidState), unsigned(Error::kInvalidLabel),
          unsigned(Error::kLabelAlreadyBound), unsigned(Error::kLabelAlreadyDefined), unsigned(Error::kLabelNameTooLong), unsigned(Error::kInvalidLabelName),
          unsigned(Error::kInvalidParentLabel), unsigned(Error::kInvalidSection), unsigned(Error::kInvalidSectionName), unsigned(Error::kInvalidDisplacement),
          unsigned(Error::kInvalidOperandSize), unsigned(Globals::kMaxAlignment), unsigned(Globals::kMaxSectionNameSize), unsigned(Globals::kMaxLabelNameSize),
-         unsigned(AlignMode::kMaxValue), unsigned(Globals::kInvalidId), unsigned(InstOptions::kShortForm), unsigned(InstOptions::kLongForm),
-         unsigned(Error::kInvalidRexPrefix), unsigned(Error::kInvalidAddress), unsigned(Error::kInvalidAddressIndex));
+         unsigned(AlignMode::kMaxValue), unsigned(Globals::kInvalidId), unsigned(InstOptions::kShortForm), unsigned(InstOptions::kLongForm), unsigned(Error::kInvalidPhysId),
+         unsigned(Error::kInvalidRexPrefix), unsigned(Error::kInvalidAddress), unsigned(Error::kInvalidAddressIndex), unsigned(Error::kInvalidAddress64Bit));
   printf("P bind_atomic=%d\n", probe_bind_atomic());
   g_scratch = new Scratch();
   for (uint64_t s = first; s < first + n; s++) { run_session(seed, s, verbose); fflush(stdout); }
